@@ -148,6 +148,13 @@ class Roles:
             pos_role = {1: 'original_count', 2: 'recovery_count', 3: 'shard_bytes'}
             if side == 'dec':
                 pos_role.update({4: 'original_base_pos', 5: 'recovery_base_pos'})
+            try:
+                rp = self._reset_param_roles(side)
+                pos_role = {i: r for i, r in rp.items() if r not in ('self', 'work_count')}
+                self.reset_param_roles = getattr(self, 'reset_param_roles', {})
+                self.reset_param_roles[side] = rp
+            except Exception as e:
+                self.problems.append('reset parameter roles of %s by flow failed: %s: %s' % (side, type(e).__name__, e))
             def param_assigns(g, tr, depth):
                 """(field, position of the reset parameter) for `self.f = <param>` in g; tr maps g's parameter names to
                 reset's parameter names (helpers called on self with plain parameters as arguments are followed)"""
@@ -196,6 +203,81 @@ class Roles:
         self.unknown_fields = getattr(self, 'unknown_fields', {})
         self.unknown_fields[side] = [n for n in ftypes if n not in fmap]
 
+    def _reset_param_roles(self, side):
+        """{parameter index of the explicit reset: role}.  Positional by default (the signature the crate has today); when the
+        callers' arguments say otherwise -- the rate modules pass their own `original_count` / `recovery_count` / `shard_bytes`
+        parameters in some other order, or grouped in private structs that the normalisations have split -- the roles follow the
+        flow: a parameter is `original_count` if every call site gives it the caller's `original_count`, it is `work_count` if it
+        is what the store's resize gets as shard count, and a decoder's base position by which add function adds it to the index."""
+        facts = self.facts
+        full = self.fn.get('%s.reset' % side)
+        names = ['self', 'original_count', 'recovery_count', 'shard_bytes', 'original_base_pos', 'recovery_base_pos', 'work_count']
+        if side == 'enc':
+            names = ['self', 'original_count', 'recovery_count', 'shard_bytes', 'work_count']
+        positional = {i: n for i, n in enumerate(names)}
+        if not full:
+            return positional
+        f = facts.fns[full]
+        pn = f.param_names()
+        if len(pn) != len(names):
+            positional = {i: n for i, n in enumerate(names) if i < len(pn)}
+        sites = []
+        for g in facts.fns.values():
+            if g.impl_self_adt == f.impl_self_adt:
+                continue
+            for b, t in g.body.calls():
+                if t['callee'].get('path') == full and len(t['args']) == len(pn):
+                    sites.append([core.strip_var_ids(g.body.canon_op(a)) for a in t['args']])
+        if not sites:
+            return positional
+        derived = {0: 'self'}
+        for i in range(1, len(pn)):
+            vals = {repr(sv[i]) for sv in sites}
+            if len(vals) == 1:
+                c = sites[0][i]
+                if c[0] == 'param' and c[1] in ('original_count', 'recovery_count', 'shard_bytes'):
+                    derived[i] = c[1]
+        # work_count: the parameter handed to the store's resize as shard count
+        fi = core.inlined_fn(facts, full, core.self_helper(f.impl_self_adt))
+        for b, t in fi.body.calls():
+            g = facts.fns.get(t['callee'].get('path'))
+            if g is not None and g.impl_self_adt == self.store_adt and len(t['args']) >= 2 and 'resize' in g.name:
+                c = core.strip_var_ids(fi.body.canon_op(t['args'][1]))
+                if c[0] == 'param' and c[1] in pn:
+                    derived[pn.index(c[1])] = 'work_count'
+        if side == 'dec':
+            # base positions: the field an add function adds to its index
+            assigned = {}
+            for bb in fi.body.blocks:
+                for st in bb['stmts']:
+                    if st['k'] == 'assign' and st['lhs']['l'] == 1 and len(st['lhs']['p']) == 2 and st['lhs']['p'][0] == '*':
+                        c = core.strip_var_ids(fi.body.canon_rv(st['rv']))
+                        if c[0] == 'param' and c[1] in pn:
+                            assigned[st['lhs']['p'][1].get('f')] = pn.index(c[1])
+            for kind in ('original', 'recovery'):
+                a = self.fn.get('dec.add_%s' % kind)
+                if not a:
+                    continue
+                ai = core.inlined_fn(facts, a, core.self_helper(f.impl_self_adt))
+                apn = ai.param_names()
+                for b, t in ai.body.calls():
+                    if re.search(r'FixedBitSet::(set|insert|put)$', t['callee'].get('path') or '') and len(t['args']) >= 2:
+                        c = core.strip_var_ids(ai.body.canon_op(t['args'][1]))
+                        if c[0] == 'bin' and c[1] == 'Add':
+                            for x, y in ((c[2], c[3]), (c[3], c[2])):
+                                if x[0] == 'field' and x[1] == ('deref', ('param', 'self')) and y == ('param', apn[1] if len(apn) > 1 else '?') and x[2] in assigned:
+                                    derived[assigned[x[2]]] = '%s_base_pos' % kind
+        want = set(names)
+        missing = want - set(derived.values())
+        free = [i for i in range(len(pn)) if i not in derived]
+        if len(missing) == 1 and len(free) == 1 and len(pn) == len(names):
+            # one parameter the call sites do not agree on (or alter): it is the one role left; the rules then say what is
+            # wrong with it (C06.d: the configuration handed over is not the caller's)
+            derived[free[0]] = list(missing)[0]
+        if set(derived.values()) == want and len(derived) == len(names):
+            return derived
+        return positional
+
     def _store_roles(self):
         facts = self.facts
         if not self.store_adt:
@@ -232,6 +314,9 @@ class Roles:
                 names = ['self', 'original_count', 'recovery_count', 'shard_bytes', 'original_base_pos', 'recovery_base_pos', 'work_count']
                 if role.startswith('enc'):
                     names = ['self', 'original_count', 'recovery_count', 'shard_bytes', 'work_count']
+                rp = getattr(self, 'reset_param_roles', {}).get(role[:3])
+                if rp and len(rp) == len(pn):
+                    names = [rp[i] for i in range(len(pn))]
                 m = {a: b for a, b in zip(pn, names) if a}
             self.params[p] = m
 
